@@ -70,6 +70,57 @@ def RSubj.observable (r : RSubj) : Obsv := fun s =>
 /-! ### AsyncSubject = Subject.take_last(1) -/
 def asyncObservable (sj : Subj) : Obsv := stdOp (kTakeLast 1) sj.observable
 
+/-! ### operators whose items are Observables: window_with_count, group_by
+    (a Subject travelling in a cell is encoded as the list of its four ids) -/
+def Subj.enc (sj : Subj) : Data := Data.ofList [.int sj.observers, .int sj.serial, .int sj.onSub, .int sj.onUnsub]
+def Subj.dec (d : Data) : Subj :=
+  match d.toList with
+  | [.int a, .int b, .int c, .int e] => ⟨a.toNat, b.toNat, c.toNat, e.toNat⟩
+  | _ => default
+
+/-- window_with_count (src/operators/window_with_count.rs): the decision (open a window? close it?) is
+    taken under the two state locks, the emissions happen after they are released -/
+def oWindowWithCount (count : Nat) (src : Obsv) : Obsv := fun s =>
+  .cellNew (.int 0) fun n =>
+  subjNew fun sj0 => .cellNew sj0.enc fun sbj =>
+  sctlNew s fun sc =>
+  sc.newObserver
+    (fun _ x =>
+      .cellRead n false fun nv => .cellRead sbj false fun cur =>
+        let k := nv.toInt.toNat
+        let sj := Subj.dec cur
+        let close := k + 1 == count
+        (if close then subjNew fun fresh => .cellWrite sbj false fresh.enc (.cellWrite n false (.int 0) .done)
+         else .cellWrite n false (.int (k + 1)) .done) ;;
+        (if k == 0 then .obsvNew sj.observable fun id => sc.sinkNext (.obs id) else .done) ;;
+        sj.next x ;;
+        (if close then sj.complete else .done))
+    (fun _ e => .cellRead sbj false fun cur => (Subj.dec cur).error e ;; sc.sinkError e)
+    (fun serial => .cellRead sbj false fun cur => (Subj.dec cur).complete ;; sc.sinkComplete serial)
+    fun o => src.sub o
+
+/-- group_by (src/operators/group_by.rs): key ↦ Subject; a new group is announced downstream while the
+    map's write lock is held; terminals go to every group (map read lock held), then downstream -/
+def oGroupBy (key : Fn) (src : Obsv) : Obsv := fun s =>
+  .cellNew .lnil fun mp =>
+  sctlNew s fun sc =>
+  sc.newObserver
+    (fun _ x =>
+      let k := (key.app x).toInt
+      .lockAcq (.cell mp) true <| .cellRead mp true fun m =>
+        match amapGet m k with
+        | some sjd => .lockRel (.cell mp) ((Subj.dec sjd).next x)
+        | none =>
+          subjNew fun sj =>
+            .cellWrite mp true (amapInsert m k sj.enc) <|
+            .obsvNew sj.observable fun id =>
+            sc.sinkNext (.obs id) ;; (.lockRel (.cell mp) (sj.next x)))
+    (fun _ e => .lockAcq (.cell mp) false <| .cellRead mp true fun m =>
+        forEach (amapVals m) (fun sjd => (Subj.dec sjd).error e) ;; (.lockRel (.cell mp) (sc.sinkError e)))
+    (fun serial => .lockAcq (.cell mp) false <| .cellRead mp true fun m =>
+        forEach (amapVals m) (fun sjd => (Subj.dec sjd).complete) ;; (.lockRel (.cell mp) (sc.sinkComplete serial)))
+    fun o => src.sub o
+
 /-! ### publish -/
 def publishConnect (src : Obsv) (sj : Subj) (k : Data → Prog) : Prog :=
   subscribeWith src (fun x => sj.next x) (fun e => sj.error e) sj.complete k
